@@ -1441,6 +1441,10 @@ class Interp:
             if isinstance(o, ClassRef):
                 return any(a in c.attrs or a in c.methods
                            for c in o.cls.mro())
+            if o is None or isinstance(o, (bool, int, float, Fraction,
+                                           str, list, tuple, dict)):
+                # plain values: only their own Python attributes
+                return hasattr(o, a) if isinstance(a, str) else False
             raise Unsupported("hasattr on non-object", node)
         if n == "str":
             return str(args[0])
